@@ -5,9 +5,10 @@ import OjgVerif.Gen.AsmFacts
 /-! # C20 — assembly plans evaluate totally, deterministically and as documented
 
 Over the model of `Asm/Model.lean` (heap of shared cells, the modelled functions, simple paths) and the
-specification of `Asm/Spec.lean`. `Dev.current` is the code as it is; each deviation from the
-documentation that the unchanged tree shows is stated at full strength, refuted by a concrete witness
-(`…_full_false`) and proved with exactly that deviation excluded.
+specification of `Asm/Spec.lean`. `Dev.current` is the code as it is (after the fix commits 312106f, e5d206a, fb1d065, 52cf3c4, 9281d31),
+`Dev.before` the code before them, `Dev.beforeCondCopy` the code between the first four and 9281d31; each deviation from the documentation is stated at full strength,
+refuted by a concrete witness for the code that shows it (`…_false`, marked "before <commit>" where a
+commit repaired it) and proved for the code that does not.
 
 1. source ties: the function registry, the recover wrapper of `Plan.Execute`, the dispatch shapes the
    deviation flags stand for;
@@ -15,9 +16,12 @@ documentation that the unchanged tree shows is stated at full strength, refuted 
    data (`diverge`), which does happen (`total_full_false`);
 3. determinism: a run that never needs a map iteration order is the same under every order; a plan
    that enumerates a map is not (`order_matters`); re-running the same plan is not deterministic in the
-   code as it is because literals are shared (`rerun_full_false`), and is once they are copied;
+   code before 52cf3c4 because literals were shared (`rerun_full_false_before`) nor before 9281d31 for
+   a list value of `cond` (`rerun_cond_false_before`); on both witnesses the code as it is agrees with
+   itself (`rerun_counter_current`, `rerun_cond_counter_current`), in general this is oracle (b) of the run;
 4. documented results: `eval f args = Spec.describe f (values of args)` for every function whose
-   arguments are evaluated values, for arguments of every kind that evaluate without effect; the path,
+   arguments are evaluated values, for arguments of every kind that evaluate without effect — with no
+   side condition in the code as it is (`evalFn_describe_current`); the path,
    body and pair taking functions by their own statements; closed forms for integer arithmetic;
 5. frame: a plan that calls none of set/setall/del/delall leaves every existing cell as it was; a
    mutator changes at most one existing cell;
@@ -53,13 +57,16 @@ theorem aliases_share_eval :
 theorem execute_has_recover : "Plan.Execute" ∈ Gen.AsmFacts.recoverEntryPoints := by decide
 
 /-- the deviation flags of `Dev.current` that can be read off the source are what the source shows:
-`lt lte gt gte` switch on `args[0]`, `evalArg` hands a literal out as it is, `quotient` has no test for a
-zero divisor -/
+`lt lte gt gte` switch on the EVALUATED first argument (312106f), `evalArg` hands out a copy of a literal
+(52cf3c4), `quotient` tests its two float divisors for zero (e5d206a), the list clause of `evalValue` ends
+with a copy of the list (fb1d065 + 9281d31) -/
 theorem dev_current_source :
-    Dev.current.cmpUneval = Gen.AsmFacts.cmpSwitchSubjects.all (fun p => p.2 == "args[0]") ∧
+    Dev.current.cmpUneval = !(Gen.AsmFacts.cmpSwitchSubjects.all (fun p => p.2 == "evalArg(root, at, args[0])")) ∧
     Gen.AsmFacts.cmpSwitchSubjects.map (·.1) = ["lt", "lte", "gt", "gte"] ∧
-    Dev.current.litAlias = (Gen.AsmFacts.evalArgDefault == "val = arg") ∧
-    Dev.current.divZeroInf = (Gen.AsmFacts.quotientZeroTests == 0) := by decide
+    Dev.current.litAlias = !(Gen.AsmFacts.evalArgDefault == "val = dupLiteral(arg)") ∧
+    Dev.current.divZeroInf = !(Gen.AsmFacts.quotientZeroTests == 2) ∧
+    (Dev.current.condListNil || Dev.current.condListAlias) = !(Gen.AsmFacts.evalValueList == "result = dupLiteral(tv)") := by
+  decide
 
 /-! ## 2. totality -/
 
@@ -79,6 +86,7 @@ theorem outcome_total (env : Env) (fuel : Nat) (plan : Option Arg) (root : Val) 
   cases ho : (execute env true fuel plan root h).1 <;> simp_all
 
 def envCur : Env := ⟨Dev.current, none⟩
+def envBefore : Env := ⟨Dev.before, none⟩
 def envDoc : Env := ⟨Dev.none, none⟩
 
 /-- the wrapper is needed: `[not]` (a wrong arity) panics, and without the recover that panic escapes -/
@@ -181,10 +189,23 @@ def counterPlan : Arg :=
 /-- heap: the literal, and two equal roots `{src: 1}` -/
 def counterHeap : Heap := [Cell.map [(b!"n", .int 0)], Cell.map [(b!"src", .int 1)], Cell.map [(b!"src", .int 1)]]
 
-/-- `$.asm.n` after running the plan on root cell `r` from heap `h` -/
+/-- the plan `[[set $.asm [cond [true [0 7]]]] [set $.asm[0] [sum $.asm[0] 1]]]`: the pair is cell 1, its
+list value `[0 7]` cell 0 -/
+def condCounterPlan : Arg :=
+  .call b!"asm" [
+    .call b!"set" [.path ⟨false, [.child b!"asm"]⟩,
+      .call b!"cond" [.raw (.aref 1) [.lit (.bool true), .raw (.aref 0) [.lit (.int 0), .lit (.int 7)]]]],
+    .call b!"set" [.path ⟨false, [.child b!"asm", .nth 0]⟩,
+      .call b!"sum" [.path ⟨false, [.child b!"asm", .nth 0]⟩, .lit (.int 1)]]]
+
+def condCounterHeap : Heap :=
+  [Cell.arr [.int 0, .int 7], Cell.arr [.bool true, .aref 0], Cell.map [(b!"src", .int 1)], Cell.map [(b!"src", .int 1)]]
+
+/-- what is looked at after a run on root cell `r`: `$.asm.n`, or `$.asm[0]` when `$.asm` is an array -/
 def asmN (h : Heap) (r : Nat) : Option Val :=
   match kvGet b!"asm" (h.mapAt r) with
   | some (.mref a) => kvGet b!"n" (h.mapAt a)
+  | some (.aref a) => (h.arrAt a).head?
   | _ => none
 
 /-- full strength: executing one plan twice on equal roots gives equal results -/
@@ -194,19 +215,40 @@ def rerun_full (dev : Dev) : Prop :=
     let run2 := execute ⟨dev, none⟩ true 9 (some plan) (.mref r2) run1.2
     asmN run1.2 r1 = asmN run2.2 r2
 
-/-- not so in the code as it is: the first run edits the plan's literal, the second run starts from the
-edited literal (1, then 2) — known finding C20-literal-aliasing -/
-theorem rerun_full_false : ¬ rerun_full Dev.current := by
+/-- before 52cf3c4: the first run edits the plan's literal, the second run starts from the edited literal
+(1, then 2) — finding C20-literal-aliasing, fixed -/
+theorem rerun_full_false_before : ¬ rerun_full Dev.before := by
   intro hf
   have := hf counterPlan counterHeap 1 2 (by decide)
   revert this
   decide
 
-/-- with literals copied on evaluation (the proposed fix) the same two runs agree -/
-theorem rerun_counter_fixed :
-    let run1 := execute ⟨{ Dev.current with litAlias := false }, none⟩ true 9 (some counterPlan) (.mref 1) counterHeap
-    let run2 := execute ⟨{ Dev.current with litAlias := false }, none⟩ true 9 (some counterPlan) (.mref 2) run1.2
+/-- the code as it is copies literals: the same two runs agree (1 and 1) -/
+theorem rerun_counter_current :
+    let run1 := execute envCur true 9 (some counterPlan) (.mref 1) counterHeap
+    let run2 := execute envCur true 9 (some counterPlan) (.mref 2) run1.2
     asmN run1.2 1 = some (.int 1) ∧ asmN run2.2 2 = some (.int 1) := by decide
+
+/-- before 9281d31 (after the other four): one literal was not copied — a list value returned by `cond`
+(`result = tv` in evalValue) was the plan's own list, so the same happened through `cond` (1, then 2) —
+finding C20-cond-list-alias, fixed -/
+theorem rerun_cond_false_before : ¬ rerun_full Dev.beforeCondCopy := by
+  intro hf
+  have := hf condCounterPlan condCounterHeap 2 3 (by decide)
+  revert this
+  decide
+
+/-- the code as it is copies that list as well: the two runs agree (1 and 1) -/
+theorem rerun_cond_counter_current :
+    let run1 := execute envCur true 9 (some condCounterPlan) (.mref 2) condCounterHeap
+    let run2 := execute envCur true 9 (some condCounterPlan) (.mref 3) run1.2
+    asmN run1.2 2 = some (.int 1) ∧ asmN run2.2 3 = some (.int 1) := by decide
+
+/-- and neither run touches the plan's own cells (the list `[0 7]`, the pair): what they change is new -/
+theorem rerun_cond_plan_untouched :
+    let run1 := execute envCur true 9 (some condCounterPlan) (.mref 2) condCounterHeap
+    let run2 := execute envCur true 9 (some condCounterPlan) (.mref 3) run1.2
+    run2.2.take 2 = condCounterHeap.take 2 := by decide
 
 /-! ## 4. documented results -/
 
@@ -299,11 +341,11 @@ def cmp_full (dev : Dev) : Prop :=
     f ∈ cmpFns → PureArgs (fun a => ev a at_) h args vs →
       evalFn ⟨dev, none⟩ ev root at_ f args h = Spec.describe dev f vs h
 
-/-- not so in the code as it is: `[lt $.src.a 5]` with `$.src.a = 1` is an error although 1 < 5 —
-finding C20-cmp-unevaluated-first (proposed fix) -/
-theorem cmp_full_false : ¬ cmp_full Dev.current := by
+/-- before 312106f: `[lt $.src.a 5]` with `$.src.a = 1` was an error although 1 < 5 — finding
+C20-cmp-unevaluated-first, fixed -/
+theorem cmp_full_false_before : ¬ cmp_full Dev.before := by
   intro hf
-  have := hf (eval envCur (.mref 0) 3) (.mref 0) (.mref 0)
+  have := hf (eval envBefore (.mref 0) 3) (.mref 0) (.mref 0)
     [Cell.map [(b!"src", .mref 1)], Cell.map [(b!"a", .int 1)]] b!"lt"
     [.path ⟨false, [.child b!"src", .child b!"a"]⟩, .lit (.int 5)] [.int 1, .int 5] (by decide) (by decide)
   revert this
@@ -317,12 +359,34 @@ theorem cmp_full_fixed (dev : Dev) (hd : dev.cmpUneval = false) : cmp_full dev :
     rcases hf with hf | hf | hf | hf | hf | hf | hf | hf <;> subst hf <;> decide
   exact evalFn_describe ⟨dev, none⟩ ev root at_ h f args vs hp hmem (Or.inl hd)
 
-/-- the documented quotient raises an error on a zero divisor; the code returns +Inf for `[/ 1.5 0]` —
-finding C20-quotient-float-zero (proposed fix) -/
-theorem quotient_zero_deviation :
+/-- the code as it is: the comparison functions compute the documented chain whatever their first
+argument is -/
+theorem cmp_full_current : cmp_full Dev.current := cmp_full_fixed Dev.current rfl
+
+/-- the code as it is, all eager functions at once: no side condition on the comparison functions is left -/
+theorem evalFn_describe_current (ord : Option MapOrd) (ev : Arg → Val → M Val) (root at_ : Val) (h : Heap) (f : Bytes)
+    (args : List Arg) (vs : List Val)
+    (hp : PureArgs (fun a => ev a at_) h args vs) (hf : f ∈ eagerFns) :
+    evalFn ⟨Dev.current, ord⟩ ev root at_ f args h = Spec.describe Dev.current f vs h :=
+  evalFn_describe ⟨Dev.current, ord⟩ ev root at_ h f args vs hp hf (Or.inl rfl)
+
+/-- `[lt $.src.a 5]` with `$.src.a = 1` is true now -/
+example :
+    evalFn envCur (eval envCur (.mref 0) 3) (.mref 0) (.mref 0) b!"lt"
+      [.path ⟨false, [.child b!"src", .child b!"a"]⟩, .lit (.int 5)]
+      [Cell.map [(b!"src", .mref 1)], Cell.map [(b!"a", .int 1)]] =
+    (.ok (.bool true), [Cell.map [(b!"src", .mref 1)], Cell.map [(b!"a", .int 1)]]) := by decide
+
+/-- the documented quotient raises an error on a zero divisor, and so does the code as it is; before
+e5d206a `[/ 1.5 0]` was +Inf — finding C20-quotient-float-zero, fixed -/
+theorem quotient_zero_current :
     Spec.describe Dev.none b!"/" [.flt (.fin false 3 (-1)), .int 0] [] = (.error .panic, []) ∧
-    Spec.describe Dev.current b!"/" [.flt (.fin false 3 (-1)), .int 0] [] = (.ok (.flt (.inf false)), []) := by
+    Spec.describe Dev.current b!"/" [.flt (.fin false 3 (-1)), .int 0] [] = (.error .panic, []) ∧
+    Spec.describe Dev.before b!"/" [.flt (.fin false 3 (-1)), .int 0] [] = (.ok (.flt (.inf false)), []) := by
   decide
+
+/-- on the arithmetic functions the code as it is IS the documented function -/
+theorem arith_current (op : Spec.Arith) (vs : List Val) : Spec.arith Dev.current op vs = Spec.arith Dev.none op vs := rfl
 
 /-- documented comparison is by value; the code rounds integers to float64 first, so 2^53 and 2^53+1
 compare equal — known finding C20-cmp-float-2p53 -/
@@ -334,12 +398,16 @@ theorem cmp_float_deviation :
   decide
 
 /-- `[cond [true [1 2]]]`: the value is a list that is not a function call; documented "the second can
-be any value", the code answers nil — finding C20-cond-list-value (proposed fix) -/
-theorem cond_list_deviation :
+be any value". Before fb1d065 the answer was nil (finding C20-cond-list-value, fixed); before 9281d31 it
+was the plan's own cell 1 (C20-cond-list-alias, fixed); the code as it is answers a copy, which is the
+documented behaviour -/
+theorem cond_list_current :
     let plan : Arg := .call b!"cond" [.raw (.aref 0) [.lit (.bool true), .raw (.aref 1) [.lit (.int 1), .lit (.int 2)]]]
     let h : Heap := [Cell.arr [.bool true, .aref 1], Cell.arr [.int 1, .int 2]]
-    (eval envCur .null 3 plan .null h).1 = .ok .null ∧
-    (eval ⟨{ Dev.current with condListNil := false }, none⟩ .null 3 plan .null h).1 = .ok (.aref 1) := by
+    (eval envBefore .null 3 plan .null h).1 = .ok .null ∧
+    (eval ⟨Dev.beforeCondCopy, none⟩ .null 3 plan .null h).1 = .ok (.aref 1) ∧
+    eval envCur .null 3 plan .null h = (.ok (.aref 2), h ++ [Cell.arr [.int 1, .int 2]]) ∧
+    eval envCur .null 3 plan .null h = eval envDoc .null 3 plan .null h := by
   decide
 
 /-- closed form: the sum of int64 arguments is the mathematical sum wrapped once (the running int64
